@@ -105,7 +105,7 @@ def generated_project(rng, name):
         if shared and rng.chance(0.5):
             # chain: a later shared file imports an earlier one
             prev = shared[-1]
-            text = text.replace("proto %s\n" % s.name, 'proto %s\n\nimport "%s"\n' % (s.name, prev[0]), 1)
+            text = re.sub(r"^(proto %s;?[ \t]*\r?\n)" % re.escape(s.name), lambda mm: mm.group(1) + '\nimport "%s"\n' % prev[0], text, count=1, flags=re.M)
         files[fname] = text
         shared.append((fname, s))
     main, _ = schemagen.generate(rng.sub("main"), fleet=False, name=rng.choice(["pkt", "main_proto", "drone"]))
@@ -132,7 +132,7 @@ def generated_project(rng, name):
                 uses.append("const FROM_%s_%s = %s.%s + 1\n" % (ns.upper(), d.name, ns, d.name))
                 break
     if imports:
-        text = text.replace("proto %s\n" % main.name, "proto %s\n\n%s\n" % (main.name, "\n".join(imports)), 1)
+        text = re.sub(r"^(proto %s;?[ \t]*\r?\n)" % re.escape(main.name), lambda mm: mm.group(1) + "\n" + "\n".join(imports) + "\n", text, count=1, flags=re.M)
         text = text + "\n" + "\n".join(uses)
     mainfile = rng.choice(["main.bitproto", main.name + ".bitproto", "a.bitproto"])
     files[mainfile] = text
@@ -329,8 +329,11 @@ def gen_plan(seed: int, mode: str):
             held["relative"] = not path.startswith("/")
             if use_string:
                 with_path = mode == "c18" or rng.chance(0.7)
+                # what a reader of the file would hand over: text mode translates \r\n and \r to \n
+                # (keyed parse_string ops must see the same characters as the file-based golden)
+                as_read = p.files[p.main].replace("\r\n", "\n").replace("\r", "\n") if mode == "c18" else p.files[p.main]
                 if with_path:
-                    op = {"op": "parse_string", "sid": sid, "text": p.files[p.main], "filepath": path, "trad": trad}
+                    op = {"op": "parse_string", "sid": sid, "text": as_read, "filepath": path, "trad": trad}
                 else:
                     # imports resolve against cwd: make cwd the project directory
                     ops.append({"op": "chdir", "path": p.root})
